@@ -115,6 +115,18 @@ fn main() {
                 std::process::exit(3);
             }
         }
+        "cost" => {
+            // rvmon cost <src>: the generators' static work estimate of a source (debugging aid)
+            let src = args.get(2).cloned().unwrap_or_default();
+            match rscel::Program::from_source(&src) {
+                Ok(p) => {
+                    let e = astnorm::expr(p.ast().expect("ast"));
+                    let (s, w) = gen::cost(&e);
+                    println!("size<={:e} work<={:e} too_heavy={}", s, w, gen::too_heavy(&e));
+                }
+                Err(e) => println!("rejected: {}", e),
+            }
+        }
         "sources" => {
             // rvmon sources <n> <seed>: JSON lines {source, sql} for the binding stage
             // (constant-rich programs without free variables, so that no bindings are needed)
